@@ -437,6 +437,7 @@ package multiplex
 // Read: returns exactly the head datagram, whole, or leaves the queue untouched.
 //@ func (*datagramBufferedPipe).Read
 //@   requires d.rwCond != nil && holdsNone()
+//@   atcall Wait requires notWhenClosedAndDrained: !(d.closed && len(d.pLens) == 0)
 //@   ensures eof: ret1 == io.EOF ==> ret0 == 0 && d.closed && len(d.pLens) == 0
 //@   ensures shortBufferLeavesQueue: ret1 == io.ErrShortBuffer ==> ret0 == 0 && sameSlice(d.pLens, acq(d.pLens)) && buflen(d.buf) == acq(buflen(d.buf)) && len(d.pLens) > 0 && d.pLens[0] > len(target)
 //@   ensures wholeDatagram: ret1 == nil ==> len(acq(d.pLens)) > 0 && ret0 == acq(d.pLens[0]) && ret0 <= len(target) && (forall i int :: 0 <= i && i < ret0 ==> target[i] == acq(bufbyte(d.buf, i)))
@@ -484,6 +485,9 @@ package multiplex
 
 //@ func (*streamBufferedPipe).Read
 //@   requires p.rwCond != nil && !held(p.rwCond.L) && locksBelow(p.rwCond.L)
+//@   # C03/C12: a reader never goes (back) to sleep on a pipe that is closed and drained - after every wake-up the
+//@   # end-of-stream condition is looked at again before the next Wait, so a blocked Read returns on Close
+//@   atcall Wait requires notWhenClosedAndDrained: !(p.closed && buflen(p.buf) == 0)
 //@   ensures eofOnlyWhenClosedAndEmpty: ret1 == io.EOF ==> ret0 == 0 && p.closed && buflen(p.buf) == 0
 //@   ensures noErrorWhileBytesRemain: acq(buflen(p.buf)) > 0 && ret1 != nil ==> ret1 == ErrTimeout
 //@   ensures prefix: ret1 == nil ==> 0 <= ret0 && ret0 <= len(target) && ret0 <= acq(buflen(p.buf)) && (len(target) > 0 ==> ret0 > 0) && (forall i int :: 0 <= i && i < ret0 ==> target[i] == acq(bufbyte(p.buf, i)))
@@ -547,6 +551,17 @@ package multiplex
 //@   ensures firstFrame: ret0.writingFrame.StreamID == id && ret0.writingFrame.Seq == 0 && ret0.writingFrame.Closing == closingNothing
 //@   ensures bufferOfTheMode: sesh.Unordered ==> typeIs[*datagramBufferedPipe](ret0.recvBuf)
 //@   ensures bufferOfTheModeOrdered: !sesh.Unordered ==> typeIs[*streamBuffer](ret0.recvBuf)
+// sorterHeap: the order container/heap is given - by the FULL 64-bit sequence number - and the slice
+// plumbing it calls back (the heap algorithm itself is the library's, see models_heap.go)
+//@ func (sorterHeap).Less
+//@   requires 0 <= i && i < len(sh) && 0 <= j && j < len(sh) && sh[i] != nil && sh[j] != nil
+//@   ensures bySequenceNumber: ret0 == (sh[i].Seq < sh[j].Seq)
+//@ func (sorterHeap).Len
+//@   ensures ret0 == len(sh)
+//@ func (sorterHeap).Swap
+//@   requires 0 <= i && i < len(sh) && 0 <= j && j < len(sh)
+//@   ensures swapped: sh[i] == old(sh[j]) && sh[j] == old(sh[i])
+//@   modifies elems(sh)
 // the sorting buffer's reader side is its byte pipe: Read passes the pipe's answer through unchanged
 // (EOF only when closed and drained, see the pipe); Close closes the pipe, under recvM so that it cannot
 // interleave with a Write that is handing frames over; SetReadDeadline goes to the pipe.
